@@ -126,6 +126,9 @@ class Check:
             fn(shadow)
         except AnalysisError as e:
             err = str(e)
+        except (TypeError, ValueError, KeyError, IndexError, AttributeError) as e:
+            # a shape reading that trips over code it was not written for is "not applicable", like a vanished anchor
+            err = f"the structural reading does not fit this code ({type(e).__name__}: {e})"
         for u, k in shadow.units.items():
             self.count(u, k)
         self.notes.extend(shadow.notes)
